@@ -280,66 +280,7 @@ func c04(c *an.Ctx) {
 	})
 
 	c.Check("R-LOCK+R-DOM", "Rerunner.run: compute call only under r.mu and after the r.stop test; ctx check before taking r.mu", 3, func(o *an.O) {
-		fn := c.NeedFunc(rx, "(*Rerunner).run")
-		ls := an.ComputeLocks(fn, nil)
-		r := fn.Params[0].Name()
-		runFn := c.NeedFunc(rx, "run")
-		calls := an.CallsToFunc(fn, runFn)
-		if len(calls) != 1 {
-			o.Fail(p.Pos(fn.Pos()), "expected exactly one call of run(ctx, r.f) in Rerunner.run, found %d", len(calls))
-			return
-		}
-		call := calls[0]
-		o.Site(call)
-		if !ls.Held(call, r+".mu") {
-			o.FailAt(call, "the computation runs without %s.mu: runs could overlap and Stop could return while one is in progress", r)
-		}
-		if !an.IsFieldAccess(an.CallOf(call).Args[1], "Rerunner", "f") {
-			o.FailAt(call, "run is not given %s.f", r)
-		}
-		// r.stop test: loads of r.stop; block the false... the call must be unreachable when the `!stop` edges are removed
-		blk := an.NewBlocker()
-		nst := 0
-		for _, ci := range an.CondIfs(fn, func(v ssa.Value) bool { return an.Expr(v) == r+".stop" }) {
-			blk.AddEdge(ci.If.Block(), ci.False)
-			nst++
-			o.Site(ci.If)
-			if !ls.Held(ci.If, r+".mu") {
-				o.FailAt(ci.If, "%s.stop tested without %s.mu: Stop could slip in between the test and the run", r, r)
-			}
-		}
-		if nst == 0 {
-			o.FailAt(call, "no test of %s.stop before the computation: a run could start after Stop returned", r)
-		} else if an.Reach(fn, nil, blk)[call] {
-			o.FailAt(call, "the computation is reachable without passing the %s.stop test", r)
-		}
-		// ctx.Err() early exit before taking r.mu (C15.6)
-		var lockI ssa.Instruction
-		_, lis := an.LockCalls(fn)
-		for _, li := range lis {
-			if op := an.CallOf(li); an.IsFieldAccess(op.Args[0], "Rerunner", "mu") {
-				if _, isCall := li.(*ssa.Call); isCall && lockI == nil {
-					lockI = li
-				}
-			}
-		}
-		an.Need(lockI != nil, "r.mu.Lock in Rerunner.run")
-		errIfs := an.CondIfs(fn, func(v ssa.Value) bool {
-			s := an.Expr(v)
-			return strings.Contains(s, ".Err()") && strings.Contains(s, "!= nil")
-		})
-		if len(errIfs) == 0 {
-			o.Fail(p.Pos(fn.Pos()), "Rerunner.run no longer returns early on a cancelled context")
-		} else {
-			b2 := an.NewBlocker()
-			for _, ci := range errIfs {
-				b2.AddEdge(ci.If.Block(), ci.False)
-				o.Site(ci.If)
-			}
-			if an.Reach(fn, nil, b2)[call] {
-				o.FailAt(call, "the computation is reachable without the cancelled-context test")
-			}
-		}
+		ruleRunUnderLock(c, o)
 	})
 
 	c.Check("R-POST", "Rerunner.run re-arms on every non-failing path (handleInvalidate on success, go r.run on retry); rerun closure calls r.run", 3, func(o *an.O) {
@@ -582,7 +523,6 @@ func c04(c *an.Ctx) {
 	})
 }
 
-
 // ruleReleaseInvalidates: node.release calls n.invalidate() unconditionally
 // before it marks the node released (shared by C04 and C08: a released but
 // not invalidated cached computation stays in the cache, detached from its
@@ -649,6 +589,82 @@ func ruleFreshComputationKept(c *an.Ctx, o *an.O) {
 	}
 }
 
+// ruleRunUnderLock: the compute call of Rerunner.run happens with r.mu held,
+// after the r.stop test made in the same critical section, and after the
+// cancelled-context test (shared by C04, C08 and C17: a run that starts after
+// Stop returned stores a computation nobody will release).
+func ruleRunUnderLock(c *an.Ctx, o *an.O) {
+	p := c.P
+	_ = p
+	{
+		fn := c.NeedFunc(rx, "(*Rerunner).run")
+		ls := an.ComputeLocks(fn, nil)
+		r := fn.Params[0].Name()
+		runFn := c.NeedFunc(rx, "run")
+		calls := an.CallsToFunc(fn, runFn)
+		if len(calls) != 1 {
+			o.Fail(p.Pos(fn.Pos()), "expected exactly one call of run(ctx, r.f) in Rerunner.run, found %d", len(calls))
+			return
+		}
+		call := calls[0]
+		o.Site(call)
+		if !ls.Held(call, r+".mu") {
+			o.FailAt(call, "the computation runs without %s.mu: runs could overlap and Stop could return while one is in progress", r)
+		}
+		if !an.IsFieldAccess(an.CallOf(call).Args[1], "Rerunner", "f") {
+			o.FailAt(call, "run is not given %s.f", r)
+		}
+		// r.stop test: loads of r.stop; block the false... the call must be unreachable when the `!stop` edges are removed
+		blk := an.NewBlocker()
+		nst := 0
+		for _, ci := range an.CondIfs(fn, func(v ssa.Value) bool { return an.Expr(v) == r+".stop" }) {
+			blk.AddEdge(ci.If.Block(), ci.False)
+			nst++
+			o.Site(ci.If)
+			if !ls.Held(ci.If, r+".mu") {
+				o.FailAt(ci.If, "%s.stop tested without %s.mu: Stop could slip in between the test and the run", r, r)
+			}
+			for _, ld := range an.LeafLoads(ci.If.Cond) {
+				if !ls.Held(ld, r+".mu") || !ls.SameSection(ld, call, r+".mu") {
+					o.FailAt(ld, "%s.stop is read in a different critical section of %s.mu than the one the computation runs in: a Stop in between returns although a run is about to start, and the computation that run stores is never released", r, r)
+				}
+			}
+		}
+		if nst == 0 {
+			o.FailAt(call, "no test of %s.stop before the computation: a run could start after Stop returned", r)
+		} else if an.Reach(fn, nil, blk)[call] {
+			o.FailAt(call, "the computation is reachable without passing the %s.stop test", r)
+		}
+		// ctx.Err() early exit before taking r.mu (C15.6)
+		var lockI ssa.Instruction
+		_, lis := an.LockCalls(fn)
+		for _, li := range lis {
+			if op := an.CallOf(li); an.IsFieldAccess(op.Args[0], "Rerunner", "mu") {
+				if _, isCall := li.(*ssa.Call); isCall && lockI == nil {
+					lockI = li
+				}
+			}
+		}
+		an.Need(lockI != nil, "r.mu.Lock in Rerunner.run")
+		errIfs := an.CondIfs(fn, func(v ssa.Value) bool {
+			s := an.Expr(v)
+			return strings.Contains(s, ".Err()") && strings.Contains(s, "!= nil")
+		})
+		if len(errIfs) == 0 {
+			o.Fail(p.Pos(fn.Pos()), "Rerunner.run no longer returns early on a cancelled context")
+		} else {
+			b2 := an.NewBlocker()
+			for _, ci := range errIfs {
+				b2.AddEdge(ci.If.Block(), ci.False)
+				o.Site(ci.If)
+			}
+			if an.Reach(fn, nil, b2)[call] {
+				o.FailAt(call, "the computation is reachable without the cancelled-context test")
+			}
+		}
+	}
+}
+
 func lockerMapOps(fn *ssa.Function) []ssa.Instruction {
 	var out []ssa.Instruction
 	an.Instrs(fn, func(i ssa.Instruction) {
@@ -691,6 +707,7 @@ func c08(c *an.Ctx) {
 
 	c.Check("R-DOM", "node.release invalidates before releasing (released cached computations must not look valid)", 2, func(o *an.O) { ruleReleaseInvalidates(c, o) })
 	c.Check("R-POST", "Rerunner.run keeps or releases every successfully computed computation", 2, func(o *an.O) { ruleFreshComputationKept(c, o) })
+	c.Check("R-LOCK+R-DOM", "no run starts after Stop: the compute call is under r.mu, after the r.stop test of the same critical section", 3, func(o *an.O) { ruleRunUnderLock(c, o) })
 
 	c.Check("R-DOM", "Rerunner.run: cache.cleanInvalidated precedes the computation; it deletes exactly the invalidated entries under the cache lock", 3, func(o *an.O) {
 		fn := c.NeedFunc(rx, "(*Rerunner).run")
